@@ -188,7 +188,8 @@ CHECKS["C15"] = dict(
          "shift, vla), ledger (double / foreign / interior delete[]), storage validity of every slot, user-buffer guard zones, and after every transition the teardown probe: destroy everything, clear_mem_cache(), "
          "no block may remain live. Solver objects: see the c15s run",
     assumptions=["GSL's own malloc blocks are checked by LeakSanitizer in the solver run only", "at most 3 vectors / 2 buffers; dimension sets {2,3} (opposite parity), {2,4} and {3,5} (same parity: blocks of one dimension are cacheable under the other) in the closure runs, 2..6 in the solver histories"],
-    runs=[run("hist_c15_a1", "hist.cpp", "asan", args=["--mode", "c15", "--slots", "2", "--bufs", "1", "--dims", "2.3", "--align", "1"], tiers=("quick", "thorough")),
+    runs=[run("c15_buffers_asan", "c11.cpp", "asan", args=["--reduced"]),   # PrepareEvolve (4 overloads), LowPassFilter, AvgRampFilter, Evolve(buffer) on exact-size heap buffers, d=2..6
+          run("hist_c15_a1", "hist.cpp", "asan", args=["--mode", "c15", "--slots", "2", "--bufs", "1", "--dims", "2.3", "--align", "1"], tiers=("quick", "thorough")),
           run("hist_c15core_d24", "hist.cpp", "asan", args=["--mode", "c15core", "--slots", "3", "--bufs", "2", "--dims", "2.4", "--align", "0"], tiers=("quick", "thorough")),
           run("hist_c15core_d35", "hist.cpp", "asan", args=["--mode", "c15core", "--slots", "3", "--bufs", "1", "--dims", "3.5", "--align", "0"], tiers=("quick", "thorough")),
           run("hist_c15_a0_d4", "hist.cpp", "asan", args=["--mode", "c15", "--slots", "2", "--bufs", "1", "--dims", "2.3", "--align", "0", "--depth", "4"], tiers=("quick",)),
